@@ -147,6 +147,8 @@ func (m *model) apply(o op, now time.Time, storedIP string) (outcome string, app
 		}
 		m.rot, m.cur = m.cur, nil
 		return out, true
+	case "get":
+		return "get", true
 	case "clear":
 		out := "clear:empty"
 		if len(m.rot)+len(m.cur)+len(m.mem) > 0 {
@@ -289,6 +291,10 @@ func (e *env) do(o op, m *model) (storedIP string, err error) {
 	case "rotate":
 		if err = e.v.Rotate(); err != nil {
 			return "", fmt.Errorf("rotate: %w", err)
+		}
+	case "get":
+		if r := e.call(http.MethodGet, "/control/querylog", "", nil); r.Panic != "" || r.Status != 200 {
+			return "", fmt.Errorf("get: status %d panic %q", r.Status, r.Panic)
 		}
 	case "clear":
 		if r := e.call(http.MethodPost, "/control/querylog_clear", "", nil); r.Panic != "" || r.Status != 200 {
